@@ -97,9 +97,12 @@ Definition insert_at {A : Type} (l : list A) (pos : Z) (xs : list A) : option (l
   else None.
 
 (* ------------------------------------------------------------------ quirks *)
-Record quirks : Set := mkQ { q_side : bool; q_cache : bool; q_rebuild : bool }.
-Definition quirks_off : quirks := mkQ false false false.
-Definition quirks_on : quirks := mkQ true true true.
+(* q_shape refines q_cache: the memoization keys (hash / eq of the array) also contain the shape of jd1, so that a
+   single epoch and a one-element array are different keys (repair of __eq__/__hash__); equal arrays of the same shape
+   still share the memoized to_scale result object *)
+Record quirks : Set := mkQ { q_side : bool; q_cache : bool; q_rebuild : bool; q_shape : bool }.
+Definition quirks_off : quirks := mkQ false false false false.
+Definition quirks_on : quirks := mkQ true true true false.
 
 (* format tags: 0 = jd, 1 = mjd, 2 = gps_ws (three columns), 3 = days, 4 = seconds, 5 = datetime, 6 = isot;  scale tags: 0 = scale of the root,
    1 = the other scale of the history *)
@@ -227,11 +230,15 @@ Section Model.
   Definition alias (st : state) (h : nat) : state :=
     mkState (heap st) (names st ++ [h]) (scache st) (fcache st).
 
+  (* first component of the memoization keys: the scale (class) of the array, with q_shape also its shape *)
+  Definition kscale (q : quirks) (o : obj) : Z :=
+    if q_shape q then 10 + 2 * o_scale o + (if is_js (o_jd o) then 1 else 0) else o_scale o.
+
   (* reading a derived format of o (done by the harness on every object it obtains) *)
   Definition observe (q : quirks) (st : state) (o : obj) : state * bool :=
     let own := is_js (o_jd o) in
     if q_cache q then
-      let key := (o_scale o, flat (o_jd o)) in
+      let key := (kscale q o, flat (o_jd o)) in
       match assoc fkey_eqb key (fcache st) with
       | Some b => (st, b)
       | None => (mkState (heap st) (names st) (scache st) ((key, own) :: fcache st), own)
@@ -367,13 +374,13 @@ Section Model.
   (* getattr(b, <scale 1>) of an array of scale 0 whose result is used but not kept by the caller (insert of an
      array of another scale): the converted object and the state with the side effects of the conversion *)
   Definition convert_anon (q : quirks) (st : state) (h : nat) (o : obj) : state * option obj :=
-    let key := (o_scale o, flat (o_jd o), 1) in
+    let key := (kscale q o, flat (o_jd o), 1) in
     match (if q_cache q then assoc skey_eqb key (scache st) else None) with
     | Some h' => (st, nth_error (heap st) h')
     | None =>
       if q_side q && cv_iter && negb (o_scalar o) && is_js (o_jd o) then (st, None)
       else if q_cache q && cv_iter && is_js (o_jd o) &&
-              match assoc fkey_eqb (o_scale o, flat (o_jd o)) (fcache st) with Some false => true | _ => false end
+              match assoc fkey_eqb (kscale q o, flat (o_jd o)) (fcache st) with Some false => true | _ => false end
       then (st, None)      (* jd1 scalar / jd2 array: outside the model, not generated *)
       else
         let st0 := if q_side q && cv_iter && negb (o_scalar o)
@@ -388,13 +395,13 @@ Section Model.
   (* getattr(b, <scale 0>) of an object of scale 1 (only used by insert; utc/tai configurations): tai -> utc
      iterates over its argument as well and reads `time.tai` (own scale, through the cache: b is registered) *)
   Definition convert_back (q : quirks) (st : state) (h : nat) (o : obj) : state * option obj :=
-    let key := (o_scale o, flat (o_jd o), 0) in
+    let key := (kscale q o, flat (o_jd o), 0) in
     match (if q_cache q then assoc skey_eqb key (scache st) else None) with
     | Some h' => (st, nth_error (heap st) h')
     | None =>
       if q_side q && cv_iter && negb (o_scalar o) && is_js (o_jd o) then (st, None)
       else if q_cache q && cv_iter && is_js (o_jd o) &&
-              match assoc fkey_eqb (o_scale o, flat (o_jd o)) (fcache st) with Some false => true | _ => false end
+              match assoc fkey_eqb (kscale q o, flat (o_jd o)) (fcache st) with Some false => true | _ => false end
       then (st, None)
       else
         let st0 := if q_side q && cv_iter && negb (o_scalar o)
@@ -402,7 +409,7 @@ Section Model.
                    else st in
         let o' := from_jds 0 (o_fmt o) (map_jdv cvi (o_jd o)) in
         (if q_cache q
-         then let own := (o_scale o, flat (o_jd o), o_scale o) in
+         then let own := (kscale q o, flat (o_jd o), o_scale o) in
               let sc0 := match assoc skey_eqb own (scache st0) with
                          | Some _ => scache st0
                          | None => (own, h) :: scache st0
@@ -436,7 +443,7 @@ Section Model.
     match getobj st k with
     | None => (st, RErr)
     | Some (h, o) =>
-      let key := (o_scale o, flat (o_jd o), s) in
+      let key := (kscale q o, flat (o_jd o), s) in
       if s =? o_scale o then                           (* to_scale returns self - through the lru_cache *)
         match (if q_cache q then assoc skey_eqb key (scache st) else None) with
         | Some h' => ref_obj q st h'
@@ -449,7 +456,7 @@ Section Model.
         | None =>
           if q_side q && cv_iter && negb (o_scalar o) && is_js (o_jd o) then (st, RErr)
           else if q_cache q && cv_iter && is_js (o_jd o) &&
-                  match assoc fkey_eqb (o_scale o, flat (o_jd o)) (fcache st) with Some false => true | _ => false end
+                  match assoc fkey_eqb (kscale q o, flat (o_jd o)) (fcache st) with Some false => true | _ => false end
           then (st, RMixed)
           else
           let st0 := if q_side q && cv_iter && negb (o_scalar o)
@@ -591,8 +598,10 @@ Definition obsres_eqb (a b : obsres) : bool :=
    the observation; 1 = none does *)
 Definition variants : list quirks :=
   [ quirks_off;
-    mkQ true false false; mkQ false true false; mkQ false false true;
-    mkQ true true false; mkQ true false true; mkQ false true true; quirks_on ].
+    mkQ true false false false; mkQ false true false false; mkQ false false true false;
+    mkQ true true false true;      (* hand-over + memoization keyed by value and shape: before the shape-blind key *)
+    mkQ true true false false; mkQ true false true false; mkQ false true true false;
+    mkQ true true true true; quirks_on ].
 
 Definition mstep (t : tables) (q : quirks) := step tV tJ tJ_eqb (T_vj t) (T_cv t) (T_cvi t) (T_fmt_to t) (t_cv_iter t) q.
 Definition minit (t : tables) (q : quirks) := init tV tJ tJ_eqb (T_vj t) q.
@@ -667,10 +676,13 @@ Definition check_eqhash (c : oobs * oobs * Z * bool * bool) : Z :=
     let em := if negb (b_scale a =? b_scale b) then 0
               else if Nat.eqb la lb || Nat.eqb la 1 || Nat.eqb lb 1
                    then (if eq_model tV tJ tJ_eqb oa ob then 1 else 0) else 2 in
-    if negb (eq_obs =? em) then 1
-    else if (eq_obs =? 1) && negb hash_eq
-         then (if eq_spec tV tJ tJ_eqb oa ob then (if pyfloat then 3 else 1) else 2)
-    else 0
+    let es := if eq_spec tV tJ tJ_eqb oa ob then 1 else 0 in
+    if eq_obs =? es then
+      (* the specification's equality (same scale, same shape, same jd pairs; never raises): equal => equal hash *)
+      (if (eq_obs =? 1) && negb hash_eq then (if pyfloat then 3 else 1) else 0)
+    else if eq_obs =? em then 2   (* the broadcasting == of the source where it deviates from the specification:
+                                     True across shapes (with or without equal hashes) or ValueError for other lengths *)
+    else 1
   end.
 
 (* write attempts (w: 0 o[i]=x, 1 o.fmt=x, 2 o.jd1[i]=x, 3 o.val[i]=x, 4 o+=x, 5 o.jd2=x, 6 del o.fmt,
